@@ -616,6 +616,53 @@ def priority_rule(rep, prog, cfg):
         rep.check(v in alts, rule, "%s/alternative %s present" % (cfg, v), pc[0].loc(pc[0].span), "no alternative produces %s" % v)
 
 
+def verbatim_rule(rep, prog, cfg, rule="C03.grammar"):
+    """What the line grammar captured is what the component carries: in the mapping closures of the component parser the fields of
+    the constructed ParsedComponent come from the closure's argument through ownership / view conversions only (String::from,
+    to_owned, the key cache) — a `trim`, case fold or replacement between capture and field changes what the client reports."""
+    from .. import terms
+    pc = body_by_name(prog, COMPONENT_PARSE)
+    if len(pc) != 1:
+        return
+    EXPECT = {"Field": {"key": ("0",), "value": ("1",)}, "BinaryField": {"data_length": ()}, "Error": {"0": ()}}
+    OK_CALLS = {"from", "into", "to_owned", "to_string", "into_boxed_str", "clone", "as_ref", "deref", "borrow", "into_string", "as_str",
+                "insert", "into_owned_error", "len"}
+    seen = set()
+    for nb in prog.bodies.values():
+        if nb.root != pc[0].root or nb is pc[0] or nb.kind != "Closure":
+            continue
+        for bb, i, st in nb.stmts():
+            if st["k"] == "assign" and st["rv"]["k"] == "agg" and st["rv"]["agg"] == "adt" and st["rv"]["adt_name"].endswith("parser::ParsedComponent"):
+                v = st["rv"].get("variant")
+                if v not in EXPECT:
+                    continue
+                for f, o in zip(st["rv"].get("fields") or [], st["rv"]["ops"]):
+                    l = op_local(o)
+                    t = terms.simplify(terms.term_of_local(nb, l, depth=12)) if l is not None else None
+                    seen.add((v, f))
+                    calls = [c.rsplit("::", 1)[-1].split("::<")[0] for c in terms.calls_in(t)] if t is not None else ["?"]
+                    lossy = sorted({c for c in calls if c not in OK_CALLS})
+                    from_arg = t is not None and ("free", 2) in _frees(t)
+                    rep.check(not lossy and from_arg and not terms.has_kind(t, "binop") and not terms.has_kind(t, "const"), rule,
+                              "%s/%s.%s carries the captured text unchanged" % (cfg, v, f), nb.loc(st["span"]),
+                              "ParsedComponent::%s.%s is `%s`: not the text the line grammar captured passed through ownership conversions only%s"
+                              % (v, f, terms.show(terms.canon(t)) if t is not None else "?", (" (%s changes it)" % ", ".join(lossy)) if lossy else ""))
+    want = {(v, f) for v, fs in EXPECT.items() for f in fs}
+    rep.check(want <= seen, rule, cfg + "/component fields filled in the mapping closures", pc[0].loc(pc[0].span),
+              "cannot see where %s are filled (idiom unknown: failing closed)" % sorted(want - seen))
+
+
+def _frees(t, out=None):
+    out = out if out is not None else set()
+    if isinstance(t, tuple) and t:
+        if t[0] == "free":
+            out.add(t)
+        for x in t:
+            if isinstance(x, tuple):
+                _frees(x, out)
+    return out
+
+
 def grammar_rule(rep, prog, cfg, rule="C03.grammar", only=None):
     """A10: the line grammar denoted by the nom combinator trees equals the MPD line grammar."""
     from .. import grammar as G
@@ -707,3 +754,4 @@ def run(rep, progs, tier):
         binary_rule(rep, prog, cfg)
         priority_rule(rep, prog, cfg)
         grammar_rule(rep, prog, cfg)
+        verbatim_rule(rep, prog, cfg)
